@@ -68,12 +68,70 @@ class Tracker(CmdMixin, MboxMixin, SweepMixin, Monitor):
         elif tx != world.now:
             self.flag({"C17"}, "server_tx is not the send time", st,
                       {"conn": conn, "frame": frame, "now": world.now})
+        if st is not None and st.kind == "cmd":
+            self._effects_at_emission(world, st, conn, frame)
         # C09: nothing is pending when a frame leaves
         self.ev["c09_no_txn_at_frame"] += 1
         pend = world.any_in_transaction()
         if pend:
             self.flag({"C09"}, "frame emitted inside an open transaction", st,
                       {"conn": conn, "frame": _short(frame), "pending": pend})
+
+    def _effects_at_emission(self, world, st, conn, frame):
+        """C09 (c) / C04: what a frame acknowledges is already visible to an independent reader
+        at the instant the frame leaves (the reader sees committed state only)."""
+        t = frame.get("type")
+        if t not in ("allocated", "claimed", "released", "closed", "message") or world.reader is None:
+            return
+        cm = self.cm.get(st.conn)
+        msg = st.msg if isinstance(st.msg, dict) else {}
+        if cm is None or not cm.bound:
+            return
+        q = world.reader.execute
+        ok = True
+        what = None
+        try:
+            if t == "message":
+                if msg.get("type") != "add":
+                    return
+                self.ev["c09_emit_message"] += 1
+                n = q("SELECT COUNT(*) FROM messages WHERE app_id=? AND body=? AND side=?",
+                      (cm.app, frame.get("body"), frame.get("side"))).fetchone()[0]
+                ok = n >= 1
+                what = "message delivered before it was committed"
+            elif t in ("allocated", "claimed") and conn == st.conn:
+                name = frame.get("nameplate") if t == "allocated" else msg.get("nameplate")
+                self.ev["c09_emit_" + t] += 1
+                n = q("SELECT COUNT(*) FROM nameplates n JOIN nameplate_sides s ON s.nameplates_id=n.id"
+                      " WHERE n.app_id=? AND n.name=? AND s.side=? AND s.claimed=1", (cm.app, name, cm.side)).fetchone()[0]
+                ok = n >= 1
+                if ok and t == "claimed":
+                    n2 = q("SELECT COUNT(*) FROM mailbox_sides WHERE mailbox_id=? AND side=?",
+                           (frame.get("mailbox"), cm.side)).fetchone()[0]
+                    ok = n2 >= 1
+                what = "%s sent before the claim was committed" % t
+            elif t == "released" and conn == st.conn:
+                name = msg.get("nameplate", cm.claim_name)
+                self.ev["c09_emit_released"] += 1
+                n = q("SELECT COUNT(*) FROM nameplates n JOIN nameplate_sides s ON s.nameplates_id=n.id"
+                      " WHERE n.app_id=? AND n.name=? AND s.side=? AND s.claimed=1", (cm.app, name, cm.side)).fetchone()[0]
+                ok = n == 0
+                what = "released sent before the release was committed"
+            elif t == "closed" and conn == st.conn:
+                mid = msg.get("mailbox", cm.opened_id)
+                self.ev["c09_emit_closed"] += 1
+                n = q("SELECT COUNT(*) FROM mailbox_sides s JOIN mailboxes m ON m.id=s.mailbox_id"
+                      " WHERE m.app_id=? AND s.mailbox_id=? AND s.side=? AND s.opened=1", (cm.app, mid, cm.side)).fetchone()[0]
+                ok = n == 0
+                what = "closed sent before the close was committed"
+        except Exception as e:
+            self.dontcare["c09_reader_error"] += 1
+            return
+        if not ok:
+            props = {"C09"}
+            if t == "allocated":
+                props.add("C04")
+            self.flag(props, what, st, {"conn": conn, "frame": _short(frame), "msg": _short(msg)})
 
     # ------------------------------------------------------------------
     def on_step(self, world, st):
@@ -84,12 +142,23 @@ class Tracker(CmdMixin, MboxMixin, SweepMixin, Monitor):
         ud = diff_tables(st.ubefore, st.uafter) if self.usage_on else []
         st.extra["diff"] = d
         st.extra["udiff"] = ud
-        if st.exc and st.kind in ("cmd", "connect", "drop"):
+        f8 = False
+        if st.exc and st.kind == "cmd" and "UNIQUE constraint failed: mailboxes.id" in st.exc \
+                and isinstance(st.msg, dict) and st.msg.get("type") in ("open", "close"):
+            cm = self.cm.get(st.conn)
+            mid = st.msg.get("mailbox")
+            if cm is not None and any(r["id"] == mid and r["app_id"] != cm.app for r in st.before["mailboxes"].values()):
+                f8 = True
+                self.known_finding("F8", {"C06", "C17"}, st, {"cmd": st.msg.get("type"), "exc": st.exc,
+                                                              "mailbox_stored_under_another_app": True})
+        if st.exc and st.kind in ("cmd", "connect", "drop") and not f8:
             self.flag({"C17"}, "internal failure in handler", st,
                       {"exc": st.exc, "msg": st.msg, "tb": _tail(st.tb)})
         for (c, how) in st.drops:
             self.flag({"C17"}, "server dropped the connection", st, {"conn": c, "how": how, "msg": st.msg})
-        if st.in_txn_after:
+        if st.in_txn_after and f8:
+            pass
+        elif st.in_txn_after:
             self.ev["c09_no_txn_after_step"] += 1
             self.flag({"C09", "C17"}, "transaction left open after step", st,
                       {"kind": st.kind, "msg": st.msg, "exc": st.exc})
@@ -151,6 +220,13 @@ class Tracker(CmdMixin, MboxMixin, SweepMixin, Monitor):
             self.flag({"C11", "C19"}, "start/stop changed channel rows", st, {"diff": _d(d)})
         if st.exc:
             self.flag({"C10", "C11", "C19"}, "service failed to start/stop", st, {"exc": st.exc, "tb": _tail(st.tb)})
+        elif st.kind == "start":
+            # C09: durability settings of the server's own connections
+            self.ev["c09_pragmas"] += 1
+            for name, pr in world.pragmas().items():
+                if pr["synchronous"] != 2 or str(pr["journal_mode"]).lower() != "delete" or pr["isolation_level"] is None:
+                    self.flag({"C09", "C10"}, "database connection opened with weakened durability settings", st,
+                              {"db": name, "pragmas": pr})
 
     # ------------------------------------------------------------------
     def _structural(self, world, st):
